@@ -320,20 +320,20 @@ class Sem:
         if k == 'coll':
             # documented: "at least one item (or emptiness) consistent with the hint"
             return z3.And(U.isinstance(x, n.cls),
-                          z3.Or(U.len(x) == 0, S(n.kids[0], self.designated(x, r, is_random, None))))
+                          z3.Or(U.len(x) == 0, U.exists_item(x, lambda t: S(n.kids[0], t))))
         if k == 'itemsview':
-            t = U.item_of(x, 0)
-            pair = z3.And(U.isinstance(t, tuple), U.len(t) == 2,
-                          S(n.kids[0], U.item_of(t, 0)), S(n.kids[1], U.item_of(t, 1)))
-            return z3.And(U.isinstance(x, n.cls), z3.Or(U.len(x) == 0, pair))
+            def pair(t):
+                return z3.And(U.isinstance(t, tuple), U.len(t) == 2,
+                              S(n.kids[0], U.item_of(t, 0)), S(n.kids[1], U.item_of(t, 1)))
+            return z3.And(U.isinstance(x, n.cls), z3.Or(U.len(x) == 0, U.exists_item(x, pair)))
         if k == 'quasi':
             return z3.And(U.isinstance(x, n.cls),
                           z3.Or(z3.Not(U.isinstance(x, cabc.Collection)), U.len(x) == 0,
-                                S(n.kids[0], self.designated(x, r, is_random, None))))
+                                U.exists_item(x, lambda t: S(n.kids[0], t))))
         if k == 'map':
-            key = U.item_of(x, 0)
-            return z3.And(U.isinstance(x, n.cls),
-                          z3.Or(U.len(x) == 0, z3.And(S(n.kids[0], key), S(n.kids[1], U.val_of(x, key)))))
+            def kv(t):
+                return z3.And(S(n.kids[0], t), S(n.kids[1], U.val_of(x, t)))
+            return z3.And(U.isinstance(x, n.cls), z3.Or(U.len(x) == 0, U.exists_item(x, kv)))
         if k == 'annotated':
             return z3.And([S(n.kids[0], x)] + [self.vale(parse_validator(v), x) for v in n.vals])
         if k == 'generic':
@@ -347,17 +347,7 @@ class Sem:
         first = U.item_of(x, 0)
         if not is_random:
             return first
-        self._n = getattr(self, '_n', 0) + 1
-        idx = z3.Int(f'des{self._n}')
-        self.lemmas = getattr(self, 'lemmas', [])
-        n = U.len(x)
-        self.lemmas.append(z3.Implies(n > 0, z3.And(idx >= 0, idx < n)))
-        if U.bound is not None:
-            for k in range(1, U.bound + 1):
-                self.lemmas.append(z3.Implies(n == k, idx == r % k))
-        else:
-            q = z3.Int(f'desq{self._n}')
-            self.lemmas.append(z3.Implies(n > 0, r == q * n + idx))
+        idx = U.pymod(r, U.len(x))
         rnd = U.item_of(x, idx)
         if is_seq is True:
             return rnd
@@ -446,3 +436,123 @@ def vale_concrete(t, obj):
     if op == 'attr':
         return hasattr(obj, t[1]) and vale_concrete(t[2], getattr(obj, t[1]))
     raise Unsupported(op)
+
+
+def must_reject(obj, n: Node) -> bool:
+    """Concrete MR[H]: is ``obj`` a violation the O(1) strategy is obliged to see?"""
+    k = n.kind
+    if k == 'any':
+        return False
+    if k == 'class':
+        return not isinstance(obj, n.cls)
+    if k == 'union':
+        return all(must_reject(obj, c) for c in n.kids)
+    if k in ('literal', 'type'):
+        return not conforms(obj, n)
+    if k == 'tuple_fixed':
+        return (not isinstance(obj, tuple)) or len(obj) != len(n.kids) or any(
+            must_reject(o, c) for o, c in zip(obj, n.kids))
+    if k in ('seq', 'coll'):
+        if not isinstance(obj, n.cls):
+            return True
+        its = _items(obj)
+        return len(its) > 0 and all(must_reject(i, n.kids[0]) for i in its)
+    if k == 'itemsview':
+        if not isinstance(obj, n.cls):
+            return True
+        its = _items(obj)
+        return len(its) > 0 and all(
+            (not isinstance(i, tuple)) or len(i) != 2 or must_reject(i[0], n.kids[0]) or must_reject(i[1], n.kids[1])
+            for i in its)
+    if k == 'quasi':
+        if not isinstance(obj, n.cls):
+            return True
+        if not isinstance(obj, cabc.Collection):
+            return False
+        its = _items(obj)
+        return len(its) > 0 and all(must_reject(i, n.kids[0]) for i in its)
+    if k == 'map':
+        if not isinstance(obj, n.cls):
+            return True
+        src = obj._d if hasattr(obj, '_d') else obj
+        keys = list(src)
+        return len(keys) > 0 and all(must_reject(a, n.kids[0]) or must_reject(src[a], n.kids[1]) for a in keys)
+    if k == 'annotated':
+        return must_reject(obj, n.kids[0]) or any(not vale_concrete(parse_validator(v), obj) for v in n.vals)
+    if k == 'generic':
+        return (not isinstance(obj, n.cls)) or any(must_reject(obj, c) for c in n.kids)
+    raise Unsupported(f'must_reject: {k}')
+
+
+def sampled_ok(obj, n: Node, r: int, is_random=True) -> bool:
+    """Concrete S_r[H]: does ``obj`` look the way the documented O(1) strategy guarantees
+    for an accepted object under draw ``r``?"""
+    k = n.kind
+    S = lambda o, c: sampled_ok(o, c, r, is_random)
+    if k == 'any':
+        return True
+    if k in ('class', 'literal', 'type'):
+        return conforms(obj, n)
+    if k == 'union':
+        return any(S(obj, c) for c in n.kids)
+    if k == 'tuple_fixed':
+        return isinstance(obj, tuple) and len(obj) == len(n.kids) and all(S(o, c) for o, c in zip(obj, n.kids))
+    if k == 'seq':
+        if not isinstance(obj, n.cls):
+            return False
+        its = _items(obj)
+        if not its:
+            return True
+        return S(its[r % len(its)] if is_random else its[0], n.kids[0])
+    if k in ('coll', 'quasi'):
+        if not isinstance(obj, n.cls):
+            return False
+        if k == 'quasi' and not isinstance(obj, cabc.Collection):
+            return True
+        its = _items(obj)
+        return (not its) or any(S(i, n.kids[0]) for i in its)
+    if k == 'itemsview':
+        if not isinstance(obj, n.cls):
+            return False
+        its = _items(obj)
+        return (not its) or any(isinstance(i, tuple) and len(i) == 2 and S(i[0], n.kids[0]) and S(i[1], n.kids[1])
+                                for i in its)
+    if k == 'map':
+        if not isinstance(obj, n.cls):
+            return False
+        src = obj._d if hasattr(obj, '_d') else obj
+        keys = list(src)
+        return (not keys) or any(S(a, n.kids[0]) and S(src[a], n.kids[1]) for a in keys)
+    if k == 'annotated':
+        return S(obj, n.kids[0]) and all(vale_concrete(parse_validator(v), obj) for v in n.vals)
+    if k == 'generic':
+        return isinstance(obj, n.cls) and all(S(obj, c) for c in n.kids)
+    raise Unsupported(f'sampled_ok: {k}')
+
+
+def reads_bound(n: Node) -> int:
+    """K(H): the number of item reads the hint alone allows — one per container node,
+    two per mapping node (first key, its value), for unions the maximum... no: the sum over
+    members is the safe constant, since several members may each read before failing."""
+    k = n.kind
+    if k in ('any', 'class', 'literal', 'type'):
+        return 0
+    if k in ('union', 'generic'):
+        return sum(reads_bound(c) for c in n.kids)
+    if k == 'tuple_fixed':
+        return len(n.kids) + sum(reads_bound(c) for c in n.kids)
+    if k in ('seq', 'coll', 'quasi'):
+        return 1 + reads_bound(n.kids[0])
+    if k == 'itemsview':
+        return 1 + 2 + reads_bound(n.kids[0]) + reads_bound(n.kids[1])
+    if k == 'map':
+        return 2 + reads_bound(n.kids[0]) + reads_bound(n.kids[1])
+    if k == 'annotated':
+        return reads_bound(n.kids[0])
+    raise Unsupported(f'reads_bound: {k}')
+
+
+def depth_ok_for_reach(n: Node) -> bool:
+    """Clause 3 of C02 is stated with the item's violation itself in MR, which makes it
+    independent of the (shared) draw at deeper levels: applicable at every depth."""
+    return True
